@@ -184,3 +184,133 @@ func VerifH_C11_slowSubscriber() {
 	vf.drain()
 	vpAssert(vf.closed, "fast:channel-closed-after-stop")
 }
+
+// ---- chain events that include reorganisations ----
+
+type vpEvRec struct {
+	id        uint32 // the block's identity (header nonce)
+	height    uint32
+	connected bool
+}
+
+type vpReorgSource struct {
+	ch     chan BlockNtfn
+	chain  []uint32 // block ids by height-1 (the current chain above genesis)
+	nextID uint32
+	log    []vpEvRec // every event emitted so far, in order
+}
+
+func (s *vpReorgSource) Notifications() <-chan BlockNtfn { return s.ch }
+func (s *vpReorgSource) NotificationsSinceHeight(h uint32) ([]BlockNtfn, uint32, error) {
+	tip := uint32(len(s.chain))
+	if h == 0 || h >= tip {
+		return nil, tip, nil
+	}
+	var out []BlockNtfn
+	for i := h + 1; i <= tip; i++ {
+		out = append(out, NewBlockConnected(wire.BlockHeader{Nonce: s.chain[i-1]}, i))
+	}
+	return out, tip, nil
+}
+func (s *vpReorgSource) connect() {
+	s.nextID++
+	s.chain = append(s.chain, s.nextID)
+	h := uint32(len(s.chain))
+	s.log = append(s.log, vpEvRec{s.nextID, h, true})
+	s.ch <- NewBlockConnected(wire.BlockHeader{Nonce: s.nextID}, h)
+}
+func (s *vpReorgSource) disconnect() {
+	h := uint32(len(s.chain))
+	id := s.chain[h-1]
+	s.chain = s.chain[:h-1]
+	var tip wire.BlockHeader
+	if h >= 2 {
+		tip.Nonce = s.chain[h-2]
+	}
+	s.log = append(s.log, vpEvRec{id, h, false})
+	s.ch <- NewBlockDisconnected(wire.BlockHeader{Nonce: id}, h, tip)
+}
+
+type vpReorgSub struct {
+	sub    *Subscription
+	expect []vpEvRec // backlog at registration; later events are appended as they are emitted
+	got    []vpEvRec
+}
+
+// VerifH_C11_reorgEvents: connect / disconnect events (reorganisations at
+// or below the height a subscriber registered at) with subscribers joining
+// with or without a backlog; each live subscriber must receive exactly its
+// backlog followed by every event emitted after it registered, in order.
+func VerifH_C11_reorgEvents() {
+	src := &vpReorgSource{ch: make(chan BlockNtfn)}
+	m := NewSubscriptionManager(src)
+	m.Start()
+	for i := vpRange("preEmitted", 0, 2); i > 0; i-- {
+		src.nextID++
+		src.chain = append(src.chain, src.nextID)
+	}
+	var subs []*vpReorgSub
+	nev := vpParam("revents", 5)
+	for ev := 0; ev < nev; ev++ {
+		switch vpRange("event", 0, 2) {
+		case 0: // subscribe
+			if len(subs) == 2 {
+				continue
+			}
+			best := uint32(vpRange("bestHeight", 0, len(src.chain)))
+			s, err := m.NewSubscription(best)
+			vpAssert(err == nil, "subscribe-ok")
+			if err != nil {
+				return
+			}
+			v := &vpReorgSub{sub: s}
+			if best != 0 {
+				for h := best + 1; h <= uint32(len(src.chain)); h++ {
+					v.expect = append(v.expect, vpEvRec{src.chain[h-1], h, true})
+				}
+				vpReach("subscribed-with-backlog")
+			}
+			subs = append(subs, v)
+		case 1:
+			src.connect()
+			for _, v := range subs {
+				v.expect = append(v.expect, src.log[len(src.log)-1])
+			}
+		case 2:
+			if len(src.chain) == 0 {
+				continue
+			}
+			src.disconnect()
+			vpReach("disconnected")
+			for _, v := range subs {
+				v.expect = append(v.expect, src.log[len(src.log)-1])
+			}
+		}
+	}
+	for i, v := range subs {
+		for {
+			vpQuiesce()
+			select {
+			case n := <-v.sub.Notifications:
+				_, isConn := n.(*Connected)
+				hdr := n.Header()
+				v.got = append(v.got, vpEvRec{hdr.Nonce, n.Height(), isConn})
+				continue
+			default:
+			}
+			break
+		}
+		tag := "sub0:"
+		if i == 1 {
+			tag = "sub1:"
+		}
+		vpAssert(len(v.got) == len(v.expect), tag+"receives-backlog-then-every-later-event")
+		for k := 0; k < len(v.got) && k < len(v.expect); k++ {
+			vpAssert(v.got[k] == v.expect[k], tag+"events-are-the-emitted-ones-in-order")
+		}
+		if len(v.expect) > 0 {
+			vpReach("events-expected")
+		}
+	}
+	m.Stop()
+}
